@@ -33,6 +33,7 @@ type stacking struct {
 	mitm       bool
 	idleOnly   bool   // idle-timeout is the only configured limit (read-header-timeout 0)
 	longIdle   bool   // idle-timeout 30 s and no read-header-timeout: only the PROXY header limit is short
+	headOnly   bool   // idle-timeout 30 s, read-header-timeout as everywhere: only the head limit is short
 	writeLimit string // --write-limit of the listener (what it accepts from all clients together)
 	cli, ctrl  *lib.CLI
 }
@@ -166,6 +167,9 @@ func startStacking(run *lib.Run, s *stacking, origin *lib.Origin, ca *lib.CA) er
 	if s.longIdle {
 		args[7], args[9] = "30s", "0s"
 	}
+	if s.headOnly {
+		args[7] = "30s"
+	}
 	if s.writeLimit != "" {
 		args = append(args, "--write-limit", s.writeLimit)
 	}
@@ -215,6 +219,14 @@ func main() {
 		run.Finish()
 		return
 	}
+	// a plain listener whose idle limit is far away: a connection inside a request head (from its
+	// first octet on) can only be ended by the head limit (takes part in the head cases only)
+	headLong := &stacking{name: "plain-long-idle", headOnly: true}
+	if err := startStacking(run, headLong, origin, ca); err != nil {
+		run.Inconclusive("start " + headLong.name + ": " + err.Error())
+		run.Finish()
+		return
+	}
 	// a listener with a write limit: the limiter is shared by all its connections, stalled or not
 	// (this stacking takes part in the non-interference cases only)
 	wl := &stacking{name: "plain-write-limit", writeLimit: "16K"}
@@ -249,6 +261,10 @@ func main() {
 	}
 	for _, k := range pp2Ks {
 		cases = append(cases, scase{name: fmt.Sprintf("pp-v2-header-after-%d", k), st: ppLong, steps: []step{{"pp2-part", k}}, limits: []time.Duration{ppT}, from: "connect"})
+	}
+	for _, k := range []int{1, 2, 3, 4, len(reqHead) - 1} {
+		cases = append(cases, scase{name: fmt.Sprintf("request-head-after-%d", k), st: headLong, steps: []step{{"head-part", k}}, limits: []time.Duration{headT}, from: "last-step"})
+		cases = append(cases, scase{name: fmt.Sprintf("second-request-head-after-%d", k), st: headLong, steps: []step{{kind: "exchange"}, {"head-part", k}}, limits: []time.Duration{headT}, from: "last-step"})
 	}
 	for _, s := range stackings {
 		var pre []step // steps to get past the listener layers
@@ -335,7 +351,7 @@ func main() {
 	slowOrigin(run, hb, stackings, hello, len(cases))
 	progressing(run, hb, stackings, hello, len(cases)+200)
 	nonInterference(run, hb, append(append([]*stacking(nil), stackings...), wl), hello, len(cases)+100)
-	for _, s := range append([]*stacking{ppLong, wl}, stackings...) {
+	for _, s := range append([]*stacking{ppLong, headLong, wl}, stackings...) {
 		for _, c := range []*lib.CLI{s.cli, s.ctrl} {
 			if !c.Alive() {
 				run.Violation("process-died:"+s.name, "child exited: "+lib.Trunc(c.Output(), 1500), -1, nil)
